@@ -321,6 +321,50 @@ def check_is_sparse(ck, prog):
           key="SPARSE:is-sparse-covers-buffer")
 
 
+def check_sparse_on_failure(ck, prog):
+    """When decoding fails, xz still writes everything that was decoded ("the user gets as much data as possible").  With
+    sparse output, trailing runs of zeros are only counted (dest_pending_sparse) and turned into file size by the
+    lseek + 1-byte write in io_close().  A target that xz created itself is removed on failure, so nothing is lost there;
+    but standard output stays: the final hole has to be materialised also when `success` is false, otherwise
+    `xz -dc damaged.xz > file` delivers fewer bytes than a pipe or --no-sparse would.  Rule: the lseek() of io_close()
+    is reachable without taking the true edge of a test of `success`."""
+    f = prog.fn("io_close", FIO, target="xz")
+    ck.saw_function(f)
+    lseekb = [b.id for b, i, e in f.iter_elems() for c in ex.calls(e, into_refs=True) if c.get("fn") == "lseek"]
+    if not lseekb:
+        raise AnalysisBroken("io_close: the lseek() that materialises the final hole was not found")
+    cut = set()
+    for b in f.blocks.values():
+        if b.term and "cond" in b.term and len(b.succs) == 2:
+            c = ex.strip(b.term["cond"])
+            neg = False
+            while c is not None and c.get("k") == "un" and c["op"] == "!":
+                neg = not neg
+                c = ex.strip(c["e"])
+            if c is not None and c.get("k") == "var" and c["n"] == "success":
+                cut.add((b.id, 1 if neg else 0))
+    seen, st, hit = set(), [f.entry], False
+    while st:
+        x = st.pop()
+        if x in seen:
+            continue
+        seen.add(x)
+        if x in lseekb:
+            hit = True
+            break
+        for idx, y in enumerate(f.blocks[x].succs):
+            if y is not None and (x, idx) not in cut:
+                st.append(y)
+    stdout_mentioned = any(b.term and "cond" in b.term and "dest_fd" in ex.show(b.term["cond"]) and ex.const_val(ex.strip(b.term["cond"]).get("r")) == 1
+                           for b in f.blocks.values() if b.id in seen)
+    ck.ob("C18-SPARSE", "final-hole-on-failure", hit, common.where(f),
+          "io_close: the final hole is materialised also when success is false (standard output is kept)" if hit else
+          "io_close(): the lseek()+write that turns the pending run of zeros into file size is reached only when `success` is "
+          "true; after a decoding error standard output (a regular file that xz does not remove) therefore lacks the zeros "
+          "that were decoded before the error: `xz -dc damaged.xz > file` is shorter than `xz -dc damaged.xz | cat`",
+          key="SPARSE:final-hole-on-failure")
+
+
 def check_decflags(ck, prog):
     """xz must hand over everything the library decodes before an error (xzdec and `xz -dc` agree byte for byte up to the
     error): it must not ask the threaded decoder to fail fast, and it asks for exactly the documented flags."""
@@ -426,6 +470,7 @@ def run(ck):
     ck.floor("C18-EXIT", 14)
     check_sparse(ck, prog)
     check_is_sparse(ck, prog)
+    check_sparse_on_failure(ck, prog)
     check_decflags(ck, prog)
     check_fmt(ck, prog)
     # "a file is created only from a completely valid input": coder_normal's success rules (shared with C17)
